@@ -38,17 +38,6 @@ def run(pid, tier):
     sv = unit['verus_set']
     c03 = pid == 'C03'
 
-    # ---- Verus
-    companions_clean = (not k['inconclusive'] and not k['failures'] and not n['failures']
-                        and all(k['results'].get(h, {}).get('status') == 'SUCCESSFUL' for h in k['harnesses']))
-    for unit_name, uu in (('main lattice unit', v), ('set unit', sv)):
-        if uu['inconclusive']:
-            msg = 'verus could not process the %s (%s)' % (unit_name, uu['inconclusive'].strip().split('\n')[0][:300])
-            if companions_clean:
-                out.proof_lost.append(msg + ': the generic proofs of this unit are unavailable on this tree; every Kani harness (complete for its '
-                                      'instantiation) and every native exhaustive run passed')
-            else:
-                out.inconclusive.append(msg + '\n' + uu['inconclusive'])
     vfails = [f for f in v['failures'] + sv['failures'] if (not c03 or c03_relevant_verus(f))]
     for f in vfails:
         cex = unit_lattice.find_cex_for_verus_failure(f, unit)
@@ -67,6 +56,7 @@ def run(pid, tier):
     for msg in k['inconclusive']:
         out.inconclusive.append('kani: ' + msg)
     reported_harness = set()
+    tool_limited = set()
     for kf in k['failures']:
         h = kf['harness']
         if c03 and not c03_relevant_harness(h):
@@ -106,11 +96,23 @@ def run(pid, tier):
                 out.violation('native::%s::%s' % (h, found['obligation']), 'native enumeration (Kani gave no verdict for this harness)', kf['raw'],
                               failing_input={'harness': h, 'bytes': found['input'], 'failed_on_real_code': rp['failed']}, replay_transcript=rp['stdout'])
             else:
+                tool_limited.add(h)
                 out.proof_lost.append('kani gave no verdict for harness %s (tool failure: %s); the native runner of the same harness found no failing input over '
                                       'small alphabets (bounded)' % (h, kf['raw'].strip().split('\n')[0][:120]))
         elif not confirmed:
             out.inconclusive.append('kani harness %s failed (%s) but no counterexample replays on the real code: treated as a tool artefact'
                                     % (h, kf['failed_checks']))
+    # ---- Verus units that could not be processed at all (lost anchor, unsupported construct): decided by the companions
+    companions_clean = (not k['inconclusive'] and not n['failures'] and not out.violations and not out.inconclusive
+                        and all(k['results'].get(h, {}).get('status') == 'SUCCESSFUL' or h in tool_limited for h in k['harnesses']))
+    for unit_name, uu in (('main lattice unit', v), ('set unit', sv)):
+        if uu['inconclusive']:
+            msg = 'verus could not process the %s (%s)' % (unit_name, uu['inconclusive'].strip().split('\n')[0][:300])
+            if companions_clean:
+                out.proof_lost.append(msg + ': the generic proofs of this unit are unavailable on this tree; every Kani harness (complete for its '
+                                      'instantiation, or decided by its native runner where Kani gave no verdict) and every native exhaustive run passed')
+            else:
+                out.inconclusive.append(msg + '\n' + uu['inconclusive'])
     # ---- native exhaustive
     for nf in n['failures']:
         if c03 and not c03_relevant_harness(nf['harness']):
